@@ -40,6 +40,9 @@ type envState struct {
 	fs         *fsModel
 	tmpSeq     int
 	lastSched  *scheduler
+	onceDone       map[*value]bool
+	wg             map[*value]int64
+	clock          int64
 	mapOrderNondet bool
 	inSpawn    bool
 	sleepBudget int
